@@ -448,15 +448,14 @@ Definition so_sync (o : nat) : M unit :=
   | Some r => select_init o r ;;; upd_inst o (fun i => i_with_expired i false)
   end.
 
-(* expire: drop whatever cached attributes are there *)
+(* expire: drop whatever cached attributes are there -- also on an instance that is expired already
+   (a lazy assignment made since then has cached and queued a value) *)
 Definition so_expire (o : nat) : M unit :=
   i <- gets (fun s => get_inst s o) ;;
-  if i_expired i then ret tt
-  else
-    upd_inst o (fun i => i_with_vals i (map (fun _ => None) (i_vals i))) ;;;
-    upd_inst o (fun i => i_with_expired i true) ;;;
-    cache_expire (i_k i) (i_id i) ;;;
-    upd_inst o (fun i => i_with_cv (i_with_dirty (i_with_pending i []) false) true).
+  upd_inst o (fun i => i_with_vals i (map (fun _ => None) (i_vals i))) ;;;
+  upd_inst o (fun i => i_with_expired i true) ;;;
+  cache_expire (i_k i) (i_id i) ;;;
+  upd_inst o (fun i => i_with_cv (i_with_dirty (i_with_pending i []) false) true).
 
 (* attribute read *)
 Definition so_read (o : nat) (c : nat) : M val :=
@@ -469,7 +468,10 @@ Definition so_read (o : nat) (c : nat) : M val :=
         r <- db_select_one (i_k i) (i_id i) all_cols ;;
         match r with
         | None => raise ENotFound
-        | Some r => select_init o r ;;; ret (nth c r VNull)
+        | Some r =>
+            (* a lazy object keeps showing its unwritten assignments *)
+            let r' := if is_lazy (i_k i) then apply_updates (i_pending i) r else r in
+            select_init o r' ;;; ret (nth c r' VNull)
         end
     end
   else
